@@ -78,6 +78,12 @@ m('c14-all-tokens-memo-hands-out-its-own-list', 'C14', 'kernpy/core/document.py'
   "        computed_categories = TokenCategory.valid(include=filter_by_categories)\n        memo = self.__dict__.setdefault('_all_tokens_memo', {})\n        key = frozenset(computed_categories)\n        if key not in memo:\n            traversal = TokensTraversal(False, computed_categories)\n            self.tree.dfs_iterative(traversal)\n            memo[key] = traversal.tokens\n        return memo[key]",
   'needs: the caller edits the list a query returned (clear/append), then the same query again')
 
+m('c14-frequencies-cache-keyed-by-id', 'C14', 'kernpy/core/document.py',
+  "        tokens = self.get_all_tokens(filter_by_categories=token_categories)\n        frequencies = {}",
+  "        key = (id(self), None if token_categories is None else tuple(sorted(c.name for c in TokenCategory.valid(include=token_categories))))\n        if key in _FREQ_CACHE:\n            return dict(_FREQ_CACHE[key])\n        tokens = self.get_all_tokens(filter_by_categories=token_categories)\n        frequencies = {}",
+  'two sites (module-level dict + store before return); keyed by id(document): needs a short-lived document of another text that was queried and '
+  'freed, then a new document that reuses its id')
+
 # ------------------------------------------------------------------ C15
 m('c15-revert-clone', 'C15', 'kernpy/core/document.py',
   "        tree = MultistageTree()\n        tree.root = link(self.tree.root)\n        tree.stages = [[link(node) for node in stage] for stage in self.tree.stages]\n\n        result = Document(tree)",
@@ -184,6 +190,8 @@ SECOND = {
                                        "        options = ExportOptions(spine_types=spine_types, token_categories=[TokenCategory.HEADER])\n        if '**mens' in options.spine_types and not isinstance(options.spine_types, list):\n            options.spine_types.discard('**mens')  # not supported yet\n        content = self.export_string(document, options)"),
     'c14-temp-mutate-no-finally': ('kernpy/core/exporter.py', "        result = \"\"\n        for row in rows:\n            if not empty_row(row):\n                result += '\\t'.join(row) + '\\n'\n        return result",
                                    "        result = \"\"\n        for row in rows:\n            if not empty_row(row):\n                result += '\\t'.join(row) + '\\n'\n        document.header_stage = saved_header_stage\n        return result"),
+    'c14-frequencies-cache-keyed-by-id': [('kernpy/core/document.py', "        return frequencies\n\n    def split(self)", "        _FREQ_CACHE[key] = {k: dict(v) for k, v in frequencies.items()}\n        return frequencies\n\n    def split(self)"),
+                                          ('kernpy/core/document.py', "class SignatureNodes:\n", "_FREQ_CACHE = {}\n\n\nclass SignatureNodes:\n")],
     'c16-export-memo-by-id': ('kernpy/core/pitch_models.py', "        name = pitch.name.replace('+', '').replace('-', '')\n\n        if pitch.octave >= HumdrumPitchExporter.C4_OCATAVE:\n            return f\"{name.lower() * (pitch.octave - HumdrumPitchExporter.C4_OCATAVE + 1)}{accidentals_output}\"\n        else:\n            return f\"{name.upper() * (HumdrumPitchExporter.C3_OCATAVE - pitch.octave + 1)}{accidentals_output}\"",
                               "        name = pitch.name.replace('+', '').replace('-', '')\n\n        if pitch.octave >= HumdrumPitchExporter.C4_OCATAVE:\n            out = f\"{name.lower() * (pitch.octave - HumdrumPitchExporter.C4_OCATAVE + 1)}{accidentals_output}\"\n        else:\n            out = f\"{name.upper() * (HumdrumPitchExporter.C3_OCATAVE - pitch.octave + 1)}{accidentals_output}\"\n        self.pitch = (hash(pitch.octave), pitch.name, out)\n        return out"),
     'c20-write-without-truncate': ('kernpy/core/exporter.py', "from copy import deepcopy\n", "import os\nfrom copy import deepcopy\n"),
@@ -198,7 +206,9 @@ def main():
     bad = 0
     for name, prop, file, old, new, note in M:
         edits = {}
-        for (fl, o, n) in [(file, old, new)] + ([SECOND[name]] if name in SECOND else []):
+        extra = SECOND.get(name, [])
+        extra = extra if isinstance(extra, list) else [extra]
+        for (fl, o, n) in [(file, old, new)] + extra:
             src = edits.get(fl) or open(os.path.join(REPO, fl), encoding='utf-8').read()
             if src.count(o) != 1:
                 print(f'!! {name}: anchor occurs {src.count(o)} times in {fl}')
